@@ -33,6 +33,14 @@ def gen_and_run(tier, seed):
     cases += [dict(c, adv=gen.ADV_KINDS[i % len(gen.ADV_KINDS)]) for i, c in enumerate(cases[:nexh3]) if i % 5 == 0]
     # wide families (a node with three children) on classes with value-based __eq__: detaching the middle child
     cases += [dict(c, adv=["always_equal", "container", "ordering"][i % 3]) for i, c in enumerate(b4[:6000])]
+    cases += mc.fresh_cases(mc.CLASSES)
+    # a deep chain (600 levels) moved as a whole: a structural call must not need stack proportional to the depth
+    n = 600
+    chain = [[None if i == 0 else i - 1, [i + 1] if i + 1 < n else []] for i in range(n)] + [[None, []]]
+    for cls in ("mixin", "light", "anynode"):
+        cases.append(mc.mk(cls, chain, ["set_parent", 0, n]))
+        cases.append(mc.mk(cls, chain, ["set_children", n, [0]]))
+        cases.append(mc.mk(cls, chain, ["set_parent", n, n - 1]))
     obs = mc.run_impl(cases, PROP)
     hs = mc.random_histories(rng, 400 if tier == "quick" else 5000, 6 if tier == "quick" else 9,
                              12 if tier == "quick" else 40, mc.CLASSES, fault_ratio=0.0)
